@@ -7,9 +7,11 @@ import Driver.Common
      P <start> <old> <fmt> <nargs> <arg>… T <n> (<frag> <val> <out>)…     print_to_with on a String sink holding <old>, from <start>
      K …same…                                                              same run; the harness additionally checks "sink unchanged on FormatError"
      M <start> <old> <fmt> <nargs> <arg>…                                  format outside the grammar: only "does it leave its buffers?"
-     J <start> <old> <fmt> <nargs> <arg>…                                  a specification libc rejects: harness-only probe (the model's `prim` is total)
+     J …same as P…                                                         same run in a forked child of the harness; the grammar additionally admits `%lc`
+                                                                           (a specification libc rejects when the "C" locale cannot encode the value)
    arg ::= i <int64> | f <16 hex digits: bits of the double> | s <bytes> | A <n> <arg>… | U <n> <arg>… | L <n> <arg>…
-   table entry: what libc prints for fragment <frag> with value <val> ::= i<int64> | d<bits> | s<bytes>   (the model's `prim`)
+   table entry: what libc prints for fragment <frag> with value <val> ::= i<int64> | d<bits> | s<bytes>   (the model's `prim`);
+                <out> = `!` when libc rejects the call (negative result)
 
    O lines (compared with harness/h_fmt.c):
      O W exc=<e> pos=<p> calls=<frag:val;…> str=<bytes>      recording sink in front of a String
@@ -28,7 +30,13 @@ def scfg : ShowCfg :=
     strDefault := CelloGen.Fmt.strShowDefault, strEsc := CelloGen.Fmt.strShowEsc
     arrOpen := CelloGen.Fmt.arrayShowOpen, arrSep := CelloGen.Fmt.arrayShowSep, arrClose := CelloGen.Fmt.arrayShowClose
     tupOpen := CelloGen.Fmt.tupleShowOpen, tupSep := CelloGen.Fmt.tupleShowSep, tupClose := CelloGen.Fmt.tupleShowClose
-    lstOpen := CelloGen.Fmt.listShowOpen, lstSep := CelloGen.Fmt.listShowSep, lstClose := CelloGen.Fmt.listShowClose }
+    lstOpen := CelloGen.Fmt.listShowOpen, lstSep := CelloGen.Fmt.listShowSep, lstClose := CelloGen.Fmt.listShowClose
+    tblOpen := CelloGen.Fmt.tableShowOpen, tblPair := CelloGen.Fmt.tableShowPair, tblSep := CelloGen.Fmt.tableShowSep, tblClose := CelloGen.Fmt.tableShowClose
+    treOpen := CelloGen.Fmt.treeShowOpen, trePair := CelloGen.Fmt.treeShowPair, treSep := CelloGen.Fmt.treeShowSep, treClose := CelloGen.Fmt.treeShowClose
+    rngOpen := CelloGen.Fmt.rangeShowOpen, rngItem := CelloGen.Fmt.rangeShowItem, rngSep := CelloGen.Fmt.rangeShowSep, rngClose := CelloGen.Fmt.rangeShowClose
+    slcOpen := CelloGen.Fmt.sliceShowOpen, slcSep := CelloGen.Fmt.sliceShowSep, slcClose := CelloGen.Fmt.sliceShowClose
+    boxFmt := CelloGen.Fmt.boxShowFmt, nullFmt := CelloGen.Fmt.nullShowFmt, defaultFmt := CelloGen.Fmt.defaultShowFmt
+    typeOff := CelloGen.Fmt.typeShowReturnsOffset }
 
 def hexDigit (n : Nat) : Char := if n < 10 then Char.ofNat (48 + n) else Char.ofNat (87 + n)
 
@@ -82,23 +90,32 @@ def parseVal (s : String) : Option PVal :=
   | 's' :: r => (unhex (String.ofList r)).map PVal.cstr
   | _ => none
 
-def parseTable : Nat → List String → Option (List ((Str × PVal) × Str))
+/-- `none` = libc rejects the call -/
+def parseTable : Nat → List String → Option (List ((Str × PVal) × Option Str))
   | 0, [] => some []
   | 0, _ => none
   | n+1, f :: v :: o :: r => do
-    let f ← unhex f; let v ← parseVal v; let o ← unhex o; let t ← parseTable n r
+    let f ← unhex f; let v ← parseVal v
+    let o ← if o = "!" then some none else (unhex o).map some
+    let t ← parseTable n r
     pure (((f, v), o) :: t)
   | _, _ => none
 
-/-- the model's `prim`: libc's text for one call, looked up in the table the op line carries -/
-def primOf (tab : List ((Str × PVal) × Str)) (frag : Str) (v : PVal) : Str :=
+/-- libc's text for one call, looked up in the table the op line carries -/
+def textOfTab (tab : List ((Str × PVal) × Option Str)) (frag : Str) (v : PVal) : Str :=
   match v with
   | .none => if frag = ['%', '%'] then ['%'] else frag
   | .ptr => ['<', 'P', '>']
   | .i64 x =>
     if frag = ['%', 'c'] then [Char.ofNat (x % 256).toNat]
-    else (tab.lookup (frag, v)).getD ['<', '?', '>']
-  | _ => (tab.lookup (frag, v)).getD ['<', '?', '>']
+    else ((tab.lookup (frag, v)).getD none).getD ['<', '?', '>']
+  | _ => ((tab.lookup (frag, v)).getD none).getD ['<', '?', '>']
+
+/-- the model's `prim`: libc from the table (a call is rejected iff its entry says so), `String_Format_To` from the source -/
+def primOf (tab : List ((Str × PVal) × Option Str)) : Prim :=
+  { text := textOfTab tab
+    rej := fun frag v => tab.lookup (frag, v) == some none
+    strSteps := CelloGen.Fmt.stringFormatToSteps.map SStep.ofCode }
 
 def showVal : PVal → String
   | .none => "n"
@@ -114,6 +131,7 @@ def excName : Outcome → String
   | .ok => "none"
   | .raised .FormatError => "FormatError"
   | .raised .ClassError => "ClassError"
+  | .raised .OutOfMemoryError => "OutOfMemoryError"
   | .raised .Fuel => "model-fuel"
   | .oob => "model-oob"
 
@@ -128,7 +146,7 @@ structure Op where
   old : Str
   fmt : Str
   args : List Obj
-  tab : List ((Str × PVal) × Str)
+  tab : List ((Str × PVal) × Option Str)
 
 def parseOp (ws : List String) (withTable : Bool) : Option Op :=
   match ws with
@@ -166,8 +184,16 @@ def validOp (op : Op) : Bool :=
   op.start ≤ op.old.length && op.start ≤ 1000000 && !op.old.contains NUL && !op.fmt.contains NUL &&
   op.args.length ≤ 1000 && op.args.all validObj
 
-def runP (op : Op) : IO Unit := do
-  if !inGrammar cfg.conv op.fmt then
+/-- the grammar of the J ops: the property's printf grammar, plus `l` in front of `c` -/
+def inGrammarWide (conv : Str) (fmt : Str) : Bool :=
+  match parseFmt conv fmt with
+  | none => false
+  | some segs => segs.all fun
+    | .spec b c => specOK b c || (c == 'c' && b.getLast? == some 'l' && specOK b.dropLast c)
+    | _ => true
+
+def runP (op : Op) (wide : Bool) : IO Unit := do
+  if !(if wide then inGrammarWide cfg.conv op.fmt else inGrammar cfg.conv op.fmt) then
     IO.println "O outside-grammar"
     return
   let prim := primOf op.tab
@@ -187,7 +213,8 @@ def runP (op : Op) : IO Unit := do
   let (nseg, nsp) := match ref with
     | some (_, a, b) => (a, b)
     | none => (0, 0)
-  IO.println s!"R len={op.fmt.length} rd={rS.marks.rdMax} wr={rS.marks.wrMax} ref={agree} segs={nseg} specs={nsp} args={op.args.length} calls={rS.out.calls.length}"
+  let nrej := (rS.out.calls.filter fun c => prim.rej c.frag c.val).length
+  IO.println s!"R len={op.fmt.length} rd={rS.marks.rdMax} wr={rS.marks.wrMax} ref={agree} segs={nseg} specs={nsp} args={op.args.length} calls={rS.out.calls.length} rejected={nrej}"
 
 def runM (op : Op) : IO Unit := do
   let prim := primOf []
@@ -204,14 +231,14 @@ def main (args : List String) : IO Unit := do
     match Driver.words l with
     | "P" :: ws | "K" :: ws =>
       match FmtDrv.parseOp ws true with
-      | some op => if FmtDrv.validOp op then FmtDrv.runP op else IO.println "O bad-op"
+      | some op => if FmtDrv.validOp op then FmtDrv.runP op false else IO.println "O bad-op"
+      | none => IO.println "O bad-op"
+    | "J" :: ws =>
+      match FmtDrv.parseOp ws true with
+      | some op => if FmtDrv.validOp op then FmtDrv.runP op true else IO.println "O bad-op"
       | none => IO.println "O bad-op"
     | "M" :: ws =>
       match FmtDrv.parseOp ws false with
       | some op => if FmtDrv.validOp op then FmtDrv.runM op else IO.println "O bad-op"
-      | none => IO.println "O bad-op"
-    | "J" :: ws =>
-      match FmtDrv.parseOp ws false with
-      | some op => if FmtDrv.validOp op then IO.println "O J" else IO.println "O bad-op"
       | none => IO.println "O bad-op"
     | _ => IO.println "O bad-op"
